@@ -70,6 +70,14 @@ func init() {
 		fmt.Fprintf(&sb, "- r%05d\n  - c%d\n", i, i%7)
 	}
 	cliDocs["big"] = sb.String()
+	// "many": a root with 255 children: a verification of it against a directory that has none of them lists
+	// exactly 256 paths (a count that is 0 modulo 256 must not become the exit status)
+	var mb strings.Builder
+	mb.WriteString("- v\n")
+	for i := 0; i < 255; i++ {
+		fmt.Fprintf(&mb, "  - c%d\n", i)
+	}
+	cliDocs["many"] = mb.String()
 }
 
 func (inv cliInv) argv() []string {
